@@ -17,8 +17,22 @@ def req_attr(i, attr, text):
     return {"id": i, "entry": "attr", "attr": attr, "item": text}
 
 
-def req_derive(i, attrs, text):
-    return {"id": i, "entry": "derive", "attr": "", "item": "".join(f"#[derive_ex({a})] " for a in attrs) + text}
+GAPS = ["", "", "#[allow(dead_code)] ", "#[doc = \" gap\"] ", "#[cfg_attr(all(), allow(unused))] ", "#[doc = \" a\"] #[allow(unused)] "]
+
+
+def attr_run(attrs, rng=None, lead=False):
+    """`#[derive_ex(..)]` attributes in order; with rng, foreign attributes are put between (and, with lead, before) them:
+    the lists of one item need not be adjacent."""
+    out = rng.choice(GAPS) if (rng and lead) else ""
+    for k, a in enumerate(attrs):
+        if k and rng:
+            out += rng.choice(GAPS)
+        out += f"#[derive_ex({a})] "
+    return out
+
+
+def req_derive(i, attrs, text, rng=None):
+    return {"id": i, "entry": "derive", "attr": "", "item": attr_run(attrs, rng) + text}
 
 
 def generated(o, entry):
@@ -89,9 +103,9 @@ def run(rep, tier, rng):
                 cut = sorted(rng.sample(range(1, len(elems)), min(len(elems) - 1, rng.choice([1, 1, 2]))))
                 parts = [elems[i:j] for i, j in zip([0] + cut, cut + [len(elems)])]
                 pa = [", ".join(p + shared) for p in parts]
-                s1 = add(req_derive(0, pa, text))
+                s1 = add(req_derive(0, pa, text, rng))
                 rel.append(("split-derive", d, s1, {"traits": traits, "parts": pa}))
-                s2 = add({"entry": "attr", "attr": pa[0], "item": "".join(f"#[derive_ex({x})] " for x in pa[1:]) + text})
+                s2 = add({"entry": "attr", "attr": pa[0], "item": attr_run(pa[1:], rng, lead=True) + text})
                 rel.append(("split-attr", a, s2, {"traits": traits, "parts": pa}))
         # split lists whose parts carry DIFFERENT shared arguments: every part must expand as it does alone
         if len(elems) >= 2 and "dump" not in shared:
@@ -105,10 +119,10 @@ def run(rep, tier, rng):
                 pa = [", ".join(p + x) for p, x in zip(parts, sh)]
                 use_attr = rng.random() < 0.5
                 if use_attr:
-                    whole = add({"entry": "attr", "attr": pa[0], "item": f"#[derive_ex({pa[1]})] " + text})
+                    whole = add({"entry": "attr", "attr": pa[0], "item": attr_run(pa[1:], rng, lead=True) + text})
                     alone = [add(req_attr(0, pa[0], text)), add(req_attr(0, pa[1], text))]
                 else:
-                    whole = add(req_derive(0, pa, text))
+                    whole = add(req_derive(0, pa, text, rng))
                     alone = [add(req_derive(0, [pa[0]], text)), add(req_derive(0, [pa[1]], text))]
                 rel.append(("split-independent", whole, alone, {"traits": traits, "parts": pa}))
         # supersets and permutations: per-trait slots must not change
@@ -194,7 +208,7 @@ def run(rep, tier, rng):
     rep.canary = generated(oa, "attr") != generated(ob, "attr")
     rep.rule = ("generated struct/enum items with helper attributes and bound arguments; relations checked by token equality of "
                 "the generated impls: attribute macro vs #[derive(Ex)]; one list vs 2-/3-way splits (shared bound/dump "
-                "replicated); per-trait impls inside a list vs inside a superset list (skipped when an item attribute belongs "
+                "replicated; foreign attributes - doc, allow, cfg_attr - between and before the split lists); per-trait impls inside a list vs inside a superset list (skipped when an item attribute belongs "
                 "only to an added trait) and vs a permuted list; impls in listed order. distinct_nontrivial = distinct "
                 "(relation, trait-set) classes.")
 
